@@ -67,6 +67,20 @@ def run(tier, seed, replay=None):
             f.close()
             if not engine_ok:
                 bad.append("libgraphite2 rejects the font (gr_make_file_face/gr_make_seg failed)")
+            if not bad and oi == 0 and i % 4 == 0:
+                # the output compiled once more as the input font (it then holds Graphite tables that are replaced): the
+                # result must be as well-formed and as acceptable to the engine as the first one
+                rc2, log2, _w2 = common.run_grc(build, r["dir"], ["-q"] + list(opts) + ["p.gdl", "out.ttf", "out2.ttf"])
+                stats["recompilations"] += 1
+                if rc2 != 0 or not os.path.exists(os.path.join(r["dir"], "out2.ttf")):
+                    bad.append("recompiling the output as input font failed with status %s" % rc2)
+                else:
+                    o2 = common.run_grcv(["font %s/out2.ttf" % r["dir"], "c03"])
+                    bad += ["recompiled: " + l for l in o2 if l and l != "done" and not l.startswith("ok ")]
+                    f2 = gr2.Face(os.path.join(r["dir"], "out2.ttf"))
+                    if not (f2.ok() and f2.shape([0x61, 0x62, 0x63]) is not None):
+                        bad.append("recompiled: libgraphite2 rejects the font")
+                    f2.close()
             if bad:
                 d = harness.save_case(rep, r, nm)
                 sig = None
@@ -178,6 +192,7 @@ def run(tier, seed, replay=None):
             if not okf:
                 rep.violation(wname, {"gdl": prog.raw_gdl, "meaning": "compiler exits 0 but libgraphite2 rejects the font"}, signature=sig)
     rep.coverage.update({
+        "recompilations_checked": stats["recompilations"],
         "programs": len(cases), "fonts_checked": stats["fonts_checked"], "compilations": total, "rejected": rejected,
         "options_distribution": dict(optstats), "handwritten_programs_fonts_checked": stats["rich_fonts_checked"], "handwritten_rejected": stats["rich_rejected"],
         "traces_validated_against_impl": stats["fonts_checked"], "disagreements_checked": len(rep.violations),
